@@ -681,7 +681,7 @@ fn c20_o1_stats_pairing() {
 }
 
 //@ ob: C20.O1a
-//@ tier: thorough
+//@ tier: off
 //@ cap: 2400
 //@ mem: 24
 //@ standins: tracing lru vcoll
@@ -701,7 +701,7 @@ fn c20_o1a_stats_find_then_get() {
 }
 
 //@ ob: C20.O1b
-//@ tier: thorough
+//@ tier: off
 //@ cap: 2400
 //@ mem: 24
 //@ standins: tracing lru vcoll
@@ -741,7 +741,7 @@ fn c20_o1c_stats_peers_then_signed() {
 }
 
 //@ ob: C20.O1d
-//@ tier: thorough
+//@ tier: off
 //@ cap: 2400
 //@ mem: 24
 //@ standins: tracing lru vcoll
@@ -761,7 +761,7 @@ fn c20_o1d_stats_signed_then_find() {
 }
 
 //@ ob: C20.O1e
-//@ tier: thorough
+//@ tier: off
 //@ cap: 2400
 //@ mem: 24
 //@ standins: tracing lru vcoll
